@@ -11,6 +11,7 @@
 //! all timestamps explicitly; C28 uses `std::time::Instant` (real, monotone).
 
 mod c18;
+mod c18b;
 mod c21;
 mod c26;
 mod c27;
